@@ -3,14 +3,15 @@ EXTENDS Tools, Json, CSV, IOUtils
 Ev(o, a, x) == [op |-> o, args |-> a, out |-> x]
 AllTargets == {"sds:big2d:first", "sds:big2d:last", "sds:small:first", "sds:unl:last", "sds:chk:mid", "sds:cmp:mid", "sds:chkcmp:last",
                "sds:t_int8:mid", "sds:t_uint8:big", "sds:t_int16:wrap", "sds:t_uint16:mid", "sds:t_int32:mid", "sds:t_uint32:mid",
-               "sds:t_float32:mid", "sds:t_float64:last", "sds:t_char8:mid", "sds:huge:first", "sds:huge:mid", "sds:huge:last",
+               "sds:t_float32:mid", "sds:t_float64:last", "sds:t_float32:ulp", "sds:t_float64:ulp", "sds:t_char8:mid", "sds:huge:first", "sds:huge:mid", "sds:huge:last",
                "vdata:table1:first", "vdata:table1:last", "vdata:table2:mid",
                "gr:img:first", "gr:img:last", "gr:img3:comp0", "gr:img3:comp1", "gr:img3:comp2",
                "sdattr:big2d:units", "gattr:title", "added:sds"}
 AllDumps == {"sds:big2d", "sds:small", "sds:unl", "sds:chk", "sds:cmp", "gr:img", "gr:img3"}
 MixedDumps == {"sds:t_int8", "sds:t_uint8", "sds:t_int16", "sds:t_uint16", "sds:t_int32", "sds:t_uint32", "sds:t_float32", "sds:t_float64", "sds:chkcmp",
                "vd:table1", "vd:table2"}
-AllImports == {"TEXT:FP32:2", "TEXT:FP32:3", "TEXT:FP64:2", "TEXT:FP64:3", "TEXT:INT32:2", "TEXT:INT32:3", "TEXT:INT16:2", "TEXT:INT16:3",
+BigDumps == {"vd:bigtable", "sds:huge"}
+AllImports == {"MULTI:FP32+FP64", "MULTI:FP64+FP32", "MULTI:FP32+IN32+FP64", "TEXT:FP32:2", "TEXT:FP32:3", "TEXT:FP64:2", "TEXT:FP64:3", "TEXT:INT32:2", "TEXT:INT32:3", "TEXT:INT16:2", "TEXT:INT16:3",
                "BIN:FP32:2", "BIN:FP32:3", "BIN:FP64:2", "BIN:FP64:3", "BIN:FP64:2:n", "BIN:FP64:3:n", "BIN:IN32:2", "BIN:IN32:3",
                "BIN:IN16:2", "BIN:IN16:3", "BIN:IN08:2", "BIN:IN08:3"}
 NoneSet == {}
